@@ -81,6 +81,7 @@ class LbWorld(object):
       self.lb2 = b2.CreateSink({SinkProperties.Label: 'svc2'})
       self.lb2_open = self.lb2.Open()
       vloop.run_ready()
+    self.m_clock = self.lp.wall()      # the reference clock starts when the balancer is created, as the balancer's own does
     self.lb = builder.CreateSink({SinkProperties.Label: 'svc'})
     self.log = stubs.RecLog()
     self.lb._log = self.log
